@@ -238,6 +238,10 @@ def canonical_poses():
     poses.append(('y_up', qm.axang([1, 0, 0], -math.pi / 2)))
     poses.append(('y_down', qm.axang([1, 0, 0], math.pi / 2)))
     poses.append(('pitch180', qm.axang([0, 1, 0], math.pi)))
+    # single-axis attitudes: one accelerometer component is *exactly* zero at a generic angle
+    for deg in (7.0, 23.0, 41.0, 58.0, 76.0, 104.0, 131.0, 157.0, -12.0, -33.0, -67.0, -118.0):
+        poses.append((f'pitch_only_{deg:g}', qm.axang([0, 1, 0], math.radians(deg))))
+        poses.append((f'roll_only_{deg:g}', qm.axang([1, 0, 0], math.radians(deg))))
     return poses
 
 
